@@ -4,7 +4,9 @@
   layout of records over 8 KiB pages (XLogBytePosToRecPtr: the records form one MAXALIGNed stream of
   "usable bytes" that is cut into pages, each page getting a header whose xlp_rem_len says how much of
   the record cut by the page start is still to come), and the `view` a correct reader must report.
-  Also PostgreSQL's own resource-manager / operation names (hand-written, PG 14–16).
+  Also PostgreSQL's own tables, written from the PostgreSQL side: XLOG_PAGE_MAGIC per major version (12–16),
+  the resource-manager names of rmgrlist.h, the opcode names of every resource manager per major version,
+  the file-name rule of WAL segments, and which transactions a commit/abort record decides.
   Knows nothing about the Go code.
 -/
 import PgVerif.Basic.Bytes
@@ -94,23 +96,28 @@ def compressHdr14 (bimg : Nat) : Bool := bimg.testBit 0 && bimg.testBit 1
 /-- PG ≥ 15: hole_length follows iff HAS_HOLE (0x01) and one of COMPRESS_PGLZ/LZ4/ZSTD (0x04/0x08/0x10) -/
 def compressHdr15 (bimg : Nat) : Bool := bimg.testBit 0 && (bimg.testBit 2 || bimg.testBit 3 || bimg.testBit 4)
 
-/-- the bimg_info bit assignment changed in PostgreSQL 15; a well-formed image here uses a bimg_info on which
-both assignments agree about the presence of the compress header, so statements hold for 14, 15 and 16 -/
-def Image.WF (i : Image) : Prop :=
+/-- is the XLogRecordBlockCompressHeader (hole_length) present?  The bimg_info bit assignment changed in
+PostgreSQL 15; `pre15` = the record was written by PostgreSQL ≤ 14 -/
+def compressHdr (pre15 : Bool) (bimg : Nat) : Bool := if pre15 then compressHdr14 bimg else compressHdr15 bimg
+
+/-- a well-formed image as PostgreSQL ≤ 14 (`pre15`) / ≥ 15 writes it: any bimg_info byte — among them the ordinary
+full-page image with a hole, HAS_HOLE|APPLY = 0x05 on ≤ 14 and 0x03 on ≥ 15 —, hole_length present exactly
+when that version's rule says so -/
+def Image.WF (pre15 : Bool) (i : Image) : Prop :=
   i.data.length < 65536 ∧ i.holeOffset < 65536 ∧ i.bimgInfo < 256 ∧
-  compressHdr14 i.bimgInfo = i.holeLength.isSome ∧ compressHdr15 i.bimgInfo = i.holeLength.isSome ∧
+  compressHdr pre15 i.bimgInfo = i.holeLength.isSome ∧
   (∀ h ∈ i.holeLength, h < 65536)
 
-instance (i : Image) : Decidable i.WF := by unfold Image.WF; infer_instance
+instance (pre15 : Bool) (i : Image) : Decidable (i.WF pre15) := by unfold Image.WF; infer_instance
 
 def RelFileNode.WF (r : RelFileNode) : Prop := r.spc < 2 ^ 32 ∧ r.db < 2 ^ 32 ∧ r.rel < 2 ^ 32
 instance (r : RelFileNode) : Decidable r.WF := by unfold RelFileNode.WF; infer_instance
 
-def BlockRef.WF (b : BlockRef) : Prop :=
-  b.id ≤ 32 ∧ b.fork < 16 ∧ (∀ i ∈ b.image, i.WF) ∧ (∀ d ∈ b.data, 0 < d.length ∧ d.length < 65536) ∧
+def BlockRef.WF (pre15 : Bool) (b : BlockRef) : Prop :=
+  b.id ≤ 32 ∧ b.fork < 16 ∧ (∀ i ∈ b.image, i.WF pre15) ∧ (∀ d ∈ b.data, 0 < d.length ∧ d.length < 65536) ∧
   (∀ r ∈ b.rel, r.WF) ∧ b.blkno < 2 ^ 32
 
-instance (b : BlockRef) : Decidable b.WF := by unfold BlockRef.WF; infer_instance
+instance (pre15 : Bool) (b : BlockRef) : Decidable (b.WF pre15) := by unfold BlockRef.WF; infer_instance
 
 /-- block ids strictly ascending -/
 def idsAscending : List BlockRef → Bool
@@ -122,12 +129,14 @@ def firstHasRel : List BlockRef → Bool
   | [] => true
   | b :: _ => b.rel.isSome
 
-def WalRecord.WF (r : WalRecord) : Prop :=
+/-- `totLen ≤ 16000` is the bound of property C17's quantifier ("records of 24..16000 bytes"), not a PostgreSQL
+limit (XLogRecordMaxSize is about 1 GB) -/
+def WalRecord.WF (pre15 : Bool) (r : WalRecord) : Prop :=
   r.xid < 2 ^ 32 ∧ r.prev < 2 ^ 64 ∧ r.info < 256 ∧ r.rmid < 256 ∧ r.crc < 2 ^ 32 ∧
-  (∀ b ∈ r.blocks, b.WF) ∧ idsAscending r.blocks = true ∧ firstHasRel r.blocks = true ∧
+  (∀ b ∈ r.blocks, b.WF pre15) ∧ idsAscending r.blocks = true ∧ firstHasRel r.blocks = true ∧
   (∀ o ∈ r.origin, o < 65536) ∧ (∀ x ∈ r.topXid, x < 2 ^ 32) ∧ r.totLen ≤ 16000
 
-instance (r : WalRecord) : Decidable r.WF := by unfold WalRecord.WF; infer_instance
+instance (pre15 : Bool) (r : WalRecord) : Decidable (r.WF pre15) := by unfold WalRecord.WF; infer_instance
 
 /-! ### what must be reported for a record -/
 
@@ -164,6 +173,20 @@ def recView (lsn : Nat) (r : WalRecord) : RecView :=
 def align8 (n : Nat) : Nat := (n + 7) / 8 * 8
 
 def pad8 (b : Bytes) : Bytes := b ++ zeros (align8 b.length - b.length)
+
+/-- XLOG_PAGE_MAGIC (xlog_internal.h) of the released major versions 12–16: (version, magic) -/
+def pageMagicTable : List (Nat × Nat) := [(12, 0xD101), (13, 0xD106), (14, 0xD10D), (15, 0xD110), (16, 0xD113)]
+
+/-- the page magics of PostgreSQL 12–16 -/
+def pageMagics : List Nat := pageMagicTable.map (·.2)
+
+/-- the major version that writes pages with this magic -/
+def versionOfMagic (m : Nat) : Option Nat := (pageMagicTable.find? (·.2 == m)).map (·.1)
+
+/-- the page was written by PostgreSQL ≤ 14 (old bimg_info bit assignment) -/
+def pre15 (m : Nat) : Bool := match versionOfMagic m with
+  | some v => v ≤ 14
+  | none => false
 
 /-- a segment file (possibly shorter than a full segment): page 0 carries the long header;
 `pre` = the tail of a record begun in the previous segment (xlp_rem_len of page 0), then the records,
@@ -255,7 +278,7 @@ def WalSegment.WF (s : WalSegment) : Prop :=
   s.magic < 65536 ∧ 0 < s.tli ∧ s.tli < 2 ^ 32 ∧ s.sysid < 2 ^ 64 ∧ 0 < s.segSize ∧ s.segSize < 2 ^ 32 ∧
   s.segSize % 8192 = 0 ∧ s.startAddr % s.segSize = 0 ∧
   s.startAddr + 8192 * (s.usedPages + s.tailPages) < 2 ^ 64 ∧ s.pre.length < 2 ^ 32 ∧
-  (∀ r ∈ s.records, r.WF)
+  (∀ r ∈ s.records, r.WF (pre15 s.magic))
 
 instance (s : WalSegment) : Decidable s.WF := by unfold WalSegment.WF; infer_instance
 
@@ -269,8 +292,10 @@ def recordOnOnePage (o len : Nat) : Bool := (locate o).2 + len ≤ 8192
 def WalSegment.view (s : WalSegment) : List RecView :=
   (s.records.zip s.offsets).map fun ro => recView (s.lsnAt ro.2) ro.1
 
-/-! ### names (PostgreSQL 14–16: rmgrlist.h, the XLOG_* opcode macros of each resource manager) -/
+/-! ### names (PostgreSQL 12–16: rmgrlist.h; the XLOG_* opcode macros / rm_identify strings of each resource manager) -/
 
+/-- PG_RMGR(…) names of rmgrlist.h, spelled as PostgreSQL spells them (ids 0..21; PostgreSQL 15+ lets extensions
+register ids 128..255 under names of their own: not listed) -/
 def pgRmgrName : Nat → Option String
   | 0 => "XLOG" | 1 => "Transaction" | 2 => "Storage" | 3 => "CLOG" | 4 => "Database" | 5 => "Tablespace"
   | 6 => "MultiXact" | 7 => "RelMap" | 8 => "Standby" | 9 => "Heap2" | 10 => "Heap" | 11 => "Btree"
@@ -278,64 +303,174 @@ def pgRmgrName : Nat → Option String
   | 18 => "CommitTs" | 19 => "ReplicationOrigin" | 20 => "Generic" | 21 => "LogicalMessage"
   | _ => none
 
-/-- names are compared modulo case and punctuation, and two documented abbreviations (DESIGN.md section 5) -/
-def normRm (s : String) : String :=
-  let n := String.ofList (s.toList.filterMap fun c =>
-    if 'A' ≤ c ∧ c ≤ 'Z' then some (Char.ofNat (c.toNat + 32))
-    else if ('a' ≤ c ∧ c ≤ 'z') ∨ ('0' ≤ c ∧ c ≤ '9') then some c else none)
-  if n == "replorigin" then "replicationorigin" else if n == "logicalmsg" then "logicalmessage" else n
-
 /-- the bits of xl_info that select the operation, per resource manager (the low four bits belong to the
-WAL machinery; heap, heap2, xact and brin use bit 7 as a flag) -/
+WAL machinery, XLR_INFO_MASK; heap, heap2, xact and brin use bit 7 as a flag: XLOG_HEAP_INIT_PAGE,
+XLOG_XACT_HAS_INFO, XLOG_BRIN_INIT_PAGE; a Generic record has no opcode) -/
 def opMask (rmid : Nat) : Nat :=
-  if rmid = 1 ∨ rmid = 9 ∨ rmid = 10 ∨ rmid = 17 then 0x70 else 0xF0
+  if rmid = 20 then 0x00 else if rmid = 1 ∨ rmid = 9 ∨ rmid = 10 ∨ rmid = 17 then 0x70 else 0xF0
 
-/-- (rmid, opcode, name): the XLOG_<RMGR>_<NAME> macros, PostgreSQL 14, 15 and 16 agree on all of these.
-Database (rmid 4) is version dependent and listed separately. -/
-def pgOpTable : List (Nat × Nat × String) := [
-  (0, 0x00, "CHECKPOINT_SHUTDOWN"), (0, 0x10, "CHECKPOINT_ONLINE"), (0, 0x20, "NOOP"), (0, 0x30, "NEXTOID"),
-  (0, 0x40, "SWITCH"), (0, 0x50, "BACKUP_END"), (0, 0x60, "PARAMETER_CHANGE"), (0, 0x70, "RESTORE_POINT"),
-  (0, 0x80, "FPW_CHANGE"), (0, 0x90, "END_OF_RECOVERY"), (0, 0xA0, "FPI_FOR_HINT"), (0, 0xB0, "FPI"),
-  (0, 0xD0, "OVERWRITE_CONTRECORD"),
-  (1, 0x00, "COMMIT"), (1, 0x10, "PREPARE"), (1, 0x20, "ABORT"), (1, 0x30, "COMMIT_PREPARED"),
-  (1, 0x40, "ABORT_PREPARED"), (1, 0x50, "ASSIGNMENT"), (1, 0x60, "INVALIDATIONS"),
-  (2, 0x10, "CREATE"), (2, 0x20, "TRUNCATE"),
-  (3, 0x00, "ZEROPAGE"), (3, 0x10, "TRUNCATE"),
-  (5, 0x00, "CREATE"), (5, 0x10, "DROP"),
-  (6, 0x00, "ZERO_OFF_PAGE"), (6, 0x10, "ZERO_MEM_PAGE"), (6, 0x20, "CREATE_ID"), (6, 0x30, "TRUNCATE_ID"),
-  (7, 0x00, "UPDATE"),
-  (8, 0x00, "LOCK"), (8, 0x10, "RUNNING_XACTS"), (8, 0x20, "INVALIDATIONS"),
-  (9, 0x00, "REWRITE"), (9, 0x10, "PRUNE"), (9, 0x20, "VACUUM"), (9, 0x30, "FREEZE_PAGE"), (9, 0x40, "VISIBLE"),
-  (9, 0x50, "MULTI_INSERT"), (9, 0x60, "LOCK_UPDATED"), (9, 0x70, "NEW_CID"),
-  (10, 0x00, "INSERT"), (10, 0x10, "DELETE"), (10, 0x20, "UPDATE"), (10, 0x30, "TRUNCATE"),
-  (10, 0x40, "HOT_UPDATE"), (10, 0x50, "CONFIRM"), (10, 0x60, "LOCK"), (10, 0x70, "INPLACE"),
-  (11, 0x00, "INSERT_LEAF"), (11, 0x10, "INSERT_UPPER"), (11, 0x20, "INSERT_META"), (11, 0x30, "SPLIT_L"),
-  (11, 0x40, "SPLIT_R"), (11, 0x50, "INSERT_POST"), (11, 0x60, "DEDUP"), (11, 0x70, "DELETE"),
-  (11, 0x80, "UNLINK_PAGE"), (11, 0x90, "UNLINK_PAGE_META"), (11, 0xA0, "NEWROOT"),
-  (11, 0xB0, "MARK_PAGE_HALFDEAD"), (11, 0xC0, "VACUUM"), (11, 0xD0, "REUSE_PAGE"), (11, 0xE0, "META_CLEANUP"),
-  (15, 0x00, "LOG"),
-  (19, 0x00, "SET"), (19, 0x10, "DROP"),
-  (21, 0x00, "MESSAGE")]
+/-- rmid ↦ (opcode, first version, last version, name): the XLOG_<RMGR>_<NAME> opcodes as rm_identify names them,
+for the major versions 12..16 (flag suffixes such as `+INIT` are not part of the operation name).
+Version-dependent: Heap2 0x10..0x30 (renumbered in 14), Database (15), Btree INSERT_POST/DEDUP (13),
+Transaction INVALIDATIONS (14), Gist ASSIGN_LSN (13).  Not listed, i.e. the Spec is silent there:
+CommitTs 0x20 (SETTS, dropped in some release of this range), resource managers of extensions (ids ≥ 128). -/
+def pgOps : Nat → List (Nat × Nat × Nat × String)
+  -- XLOG (pg_control.h)
+  | 0 => [(0x00, 12, 16, "CHECKPOINT_SHUTDOWN"), (0x10, 12, 16, "CHECKPOINT_ONLINE"),
+    (0x20, 12, 16, "NOOP"), (0x30, 12, 16, "NEXTOID"), (0x40, 12, 16, "SWITCH"),
+    (0x50, 12, 16, "BACKUP_END"), (0x60, 12, 16, "PARAMETER_CHANGE"),
+    (0x70, 12, 16, "RESTORE_POINT"), (0x80, 12, 16, "FPW_CHANGE"),
+    (0x90, 12, 16, "END_OF_RECOVERY"), (0xA0, 12, 16, "FPI_FOR_HINT"), (0xB0, 12, 16, "FPI"),
+    (0xD0, 12, 16, "OVERWRITE_CONTRECORD")]
+  -- Transaction (xact.h; XLOG_XACT_OPMASK 0x70)
+  | 1 => [(0x00, 12, 16, "COMMIT"), (0x10, 12, 16, "PREPARE"), (0x20, 12, 16, "ABORT"),
+    (0x30, 12, 16, "COMMIT_PREPARED"), (0x40, 12, 16, "ABORT_PREPARED"),
+    (0x50, 12, 16, "ASSIGNMENT"), (0x60, 14, 16, "INVALIDATIONS")]
+  -- Storage (storage_xlog.h)
+  | 2 => [(0x10, 12, 16, "CREATE"), (0x20, 12, 16, "TRUNCATE")]
+  -- CLOG (clog.h)
+  | 3 => [(0x00, 12, 16, "ZEROPAGE"), (0x10, 12, 16, "TRUNCATE")]
+  -- Database (dbcommands_xlog.h; renumbered in 15)
+  | 4 => [(0x00, 12, 14, "CREATE"), (0x10, 12, 14, "DROP"), (0x00, 15, 16, "CREATE_FILE_COPY"),
+    (0x10, 15, 16, "CREATE_WAL_LOG"), (0x20, 15, 16, "DROP")]
+  -- Tablespace (tablespace.h)
+  | 5 => [(0x00, 12, 16, "CREATE"), (0x10, 12, 16, "DROP")]
+  -- MultiXact (multixact.h)
+  | 6 => [(0x00, 12, 16, "ZERO_OFF_PAGE"), (0x10, 12, 16, "ZERO_MEM_PAGE"), (0x20, 12, 16, "CREATE_ID"),
+    (0x30, 12, 16, "TRUNCATE_ID")]
+  -- RelMap (relmapper.h)
+  | 7 => [(0x00, 12, 16, "UPDATE")]
+  -- Standby (standbydefs.h)
+  | 8 => [(0x00, 12, 16, "LOCK"), (0x10, 12, 16, "RUNNING_XACTS"), (0x20, 12, 16, "INVALIDATIONS")]
+  -- Heap2 (heapam_xlog.h; 0x10..0x30 renumbered in 14)
+  | 9 => [(0x00, 12, 16, "REWRITE"), (0x10, 12, 13, "CLEAN"), (0x20, 12, 13, "FREEZE_PAGE"),
+    (0x30, 12, 13, "CLEANUP_INFO"), (0x10, 14, 16, "PRUNE"), (0x20, 14, 16, "VACUUM"),
+    (0x30, 14, 16, "FREEZE_PAGE"), (0x40, 12, 16, "VISIBLE"), (0x50, 12, 16, "MULTI_INSERT"),
+    (0x60, 12, 16, "LOCK_UPDATED"), (0x70, 12, 16, "NEW_CID")]
+  -- Heap (heapam_xlog.h)
+  | 10 => [(0x00, 12, 16, "INSERT"), (0x10, 12, 16, "DELETE"), (0x20, 12, 16, "UPDATE"),
+    (0x30, 12, 16, "TRUNCATE"), (0x40, 12, 16, "HOT_UPDATE"), (0x50, 12, 16, "CONFIRM"),
+    (0x60, 12, 16, "LOCK"), (0x70, 12, 16, "INPLACE")]
+  -- Btree (nbtxlog.h; INSERT_POST, DEDUP since 13)
+  | 11 => [(0x00, 12, 16, "INSERT_LEAF"), (0x10, 12, 16, "INSERT_UPPER"), (0x20, 12, 16, "INSERT_META"),
+    (0x30, 12, 16, "SPLIT_L"), (0x40, 12, 16, "SPLIT_R"), (0x50, 13, 16, "INSERT_POST"),
+    (0x60, 13, 16, "DEDUP"), (0x70, 12, 16, "DELETE"), (0x80, 12, 16, "UNLINK_PAGE"),
+    (0x90, 12, 16, "UNLINK_PAGE_META"), (0xA0, 12, 16, "NEWROOT"),
+    (0xB0, 12, 16, "MARK_PAGE_HALFDEAD"), (0xC0, 12, 16, "VACUUM"), (0xD0, 12, 16, "REUSE_PAGE"),
+    (0xE0, 12, 16, "META_CLEANUP")]
+  -- Hash (hash_xlog.h)
+  | 12 => [(0x00, 12, 16, "INIT_META_PAGE"), (0x10, 12, 16, "INIT_BITMAP_PAGE"), (0x20, 12, 16, "INSERT"),
+    (0x30, 12, 16, "ADD_OVFL_PAGE"), (0x40, 12, 16, "SPLIT_ALLOCATE_PAGE"),
+    (0x50, 12, 16, "SPLIT_PAGE"), (0x60, 12, 16, "SPLIT_COMPLETE"),
+    (0x70, 12, 16, "MOVE_PAGE_CONTENTS"), (0x80, 12, 16, "SQUEEZE_PAGE"), (0x90, 12, 16, "DELETE"),
+    (0xA0, 12, 16, "SPLIT_CLEANUP"), (0xB0, 12, 16, "UPDATE_META_PAGE"),
+    (0xC0, 12, 16, "VACUUM_ONE_PAGE")]
+  -- Gin (ginxlog.h)
+  | 13 => [(0x10, 12, 16, "CREATE_PTREE"), (0x20, 12, 16, "INSERT"), (0x30, 12, 16, "SPLIT"),
+    (0x40, 12, 16, "VACUUM_PAGE"), (0x50, 12, 16, "DELETE_PAGE"),
+    (0x60, 12, 16, "UPDATE_META_PAGE"), (0x70, 12, 16, "INSERT_LISTPAGE"),
+    (0x80, 12, 16, "DELETE_LISTPAGE"), (0x90, 12, 16, "VACUUM_DATA_LEAF_PAGE")]
+  -- Gist (gistxlog.h; ASSIGN_LSN since 13)
+  | 14 => [(0x00, 12, 16, "PAGE_UPDATE"), (0x10, 12, 16, "DELETE"), (0x20, 12, 16, "PAGE_REUSE"),
+    (0x30, 12, 16, "PAGE_SPLIT"), (0x60, 12, 16, "PAGE_DELETE"), (0x70, 13, 16, "ASSIGN_LSN")]
+  -- Sequence (sequence.h)
+  | 15 => [(0x00, 12, 16, "LOG")]
+  -- SPGist (spgxlog.h)
+  | 16 => [(0x10, 12, 16, "ADD_LEAF"), (0x20, 12, 16, "MOVE_LEAFS"), (0x30, 12, 16, "ADD_NODE"),
+    (0x40, 12, 16, "SPLIT_TUPLE"), (0x50, 12, 16, "PICKSPLIT"), (0x60, 12, 16, "VACUUM_LEAF"),
+    (0x70, 12, 16, "VACUUM_ROOT"), (0x80, 12, 16, "VACUUM_REDIRECT")]
+  -- BRIN (brin_xlog.h; XLOG_BRIN_OPMASK 0x70)
+  | 17 => [(0x00, 12, 16, "CREATE_INDEX"), (0x10, 12, 16, "INSERT"), (0x20, 12, 16, "UPDATE"),
+    (0x30, 12, 16, "SAMEPAGE_UPDATE"), (0x40, 12, 16, "REVMAP_EXTEND"),
+    (0x50, 12, 16, "DESUMMARIZE")]
+  -- CommitTs (commit_ts.h)
+  | 18 => [(0x00, 12, 16, "ZEROPAGE"), (0x10, 12, 16, "TRUNCATE")]
+  -- ReplicationOrigin (origin.h)
+  | 19 => [(0x00, 12, 16, "SET"), (0x10, 12, 16, "DROP")]
+  -- Generic (generic_desc.c: every record is "Generic")
+  | 20 => [(0x00, 12, 16, "Generic")]
+  -- LogicalMessage (message.h)
+  | 21 => [(0x00, 12, 16, "MESSAGE")]
+  | _ => []
 
-/-- Database operations: PostgreSQL 14 -/
-def pgDbaseOps14 : List (Nat × String) := [(0x00, "CREATE"), (0x10, "DROP")]
-/-- Database operations: PostgreSQL 15 and 16 -/
-def pgDbaseOps15 : List (Nat × String) := [(0x00, "CREATE_FILE_COPY"), (0x10, "CREATE_WAL_LOG"), (0x20, "DROP")]
-
-/-- the operation name PostgreSQL (major version `ver` ∈ {14, 15, 16}) assigns to (rmid, info), when it defines one -/
+/-- the operation name PostgreSQL (major version `ver` ∈ 12..16) assigns to (rmid, info), when it defines one -/
 def pgOpName (ver rmid info : Nat) : Option String :=
   let op := info &&& opMask rmid
-  if rmid = 4 then ((if ver ≤ 14 then pgDbaseOps14 else pgDbaseOps15).find? (·.1 == op)).map (·.2)
-  else (pgOpTable.find? (fun e => e.1 == rmid && e.2.1 == op)).map (·.2.2)
+  ((pgOps rmid).find? fun e => e.1 == op && e.2.1 ≤ ver && ver ≤ e.2.2.1).map (·.2.2.2)
 
-/-- commit / abort status a transaction-manager record gives to its xid -/
+/-- commit / abort verdict of a transaction-manager record's opcode -/
 def xactStatus (rmid info : Nat) : Option String :=
   if rmid = 1 then
     let op := info &&& 0x70
     if op = 0x00 ∨ op = 0x30 then some "COMMIT" else if op = 0x20 ∨ op = 0x40 then some "ABORT" else none
   else none
 
-/-- a WAL segment file name: 24 upper-case hexadecimal digits (XLogFileName: timeline, log, segment) -/
+/-! #### which transactions a commit / abort record decides (xact.h: xl_xact_commit / xl_xact_abort) -/
+
+/-- the parts of the main data of a COMMIT / ABORT / COMMIT_PREPARED / ABORT_PREPARED record that name transactions:
+xl_xact_commit|abort { TimestampTz xact_time }, then — when xl_info has XLOG_XACT_HAS_INFO (0x80) — xl_xact_xinfo
+{ uint32 xinfo } and the parts xinfo announces, of which here: XACT_XINFO_HAS_SUBXACTS (0x02): int nsubxacts,
+TransactionId[nsubxacts]; XACT_XINFO_HAS_TWOPHASE (0x10): xl_xact_twophase { TransactionId xid } — the prepared
+transaction a COMMIT PREPARED / ROLLBACK PREPARED ends (the record header's xl_xid is that of the backend running
+the command, normally 0) -/
+structure XactEnd where
+  time : Nat
+  subxacts : List Nat
+  twophase : Option Nat
+deriving Repr, DecidableEq, Inhabited
+
+def XactEnd.xinfo (x : XactEnd) : Nat := (if x.subxacts.isEmpty then 0 else 0x02) + (if x.twophase.isSome then 0x10 else 0)
+
+def encXactEnd (x : XactEnd) : Bytes :=
+  le 8 x.time ++ (if x.xinfo = 0 then [] else le 4 x.xinfo) ++
+    (if x.subxacts.isEmpty then [] else le 4 x.subxacts.length ++ x.subxacts.flatMap (le 4)) ++ optBytes (le 4) x.twophase
+
+def XactEnd.WF (x : XactEnd) : Prop :=
+  x.time < 2 ^ 64 ∧ x.subxacts.length < 2 ^ 31 ∧ (∀ s ∈ x.subxacts, s < 2 ^ 32) ∧ (∀ t ∈ x.twophase, t < 2 ^ 32)
+
+instance (x : XactEnd) : Decidable x.WF := by unfold XactEnd.WF; infer_instance
+
+/-- read `n` TransactionIds -/
+def takeXids : Nat → Bytes → Option (List Nat × Bytes)
+  | 0, bs => some ([], bs)
+  | n+1, bs => if bs.length < 4 then none else
+      match takeXids n (bs.drop 4) with
+      | some (xs, rest) => some (rd 4 bs :: xs, rest)
+      | none => none
+
+/-- ParseCommitRecord / ParseAbortRecord restricted to main data whose xinfo announces nothing but subtransactions
+and a two-phase xid (any other bit: `none`, the Spec is silent) -/
+def decXactEnd (info : Nat) (d : Bytes) : Option XactEnd :=
+  if d.length < 8 then none
+  else if info &&& 0x80 = 0 then some ⟨rd 8 d, [], none⟩
+  else if d.length < 12 then none
+  else
+    let xinfo := rd 4 (d.drop 8)
+    if xinfo &&& 0xFFFFFFED ≠ 0 then none
+    else
+      let rest := d.drop 12
+      let subs : Option (List Nat × Bytes) :=
+        if xinfo &&& 0x02 ≠ 0 then (if rest.length < 4 then none else takeXids (rd 4 rest) (rest.drop 4)) else some ([], rest)
+      match subs with
+      | none => none
+      | some (xs, rest) =>
+        if xinfo &&& 0x10 ≠ 0 then (if rest.length < 4 then none else some ⟨rd 8 d, xs, some (rd 4 rest)⟩)
+        else some ⟨rd 8 d, xs, none⟩
+
+/-- the transactions whose fate the record decides: for COMMIT / ABORT the transaction of the record header and its
+subtransactions; for COMMIT_PREPARED / ABORT_PREPARED the prepared transaction named in the body (not the header's
+xid) and its subtransactions.  Main data the decoder above does not cover: the header xid alone. -/
+def decidedXids (r : WalRecord) : List Nat :=
+  if r.rmid = 1 ∧ (xactStatus 1 r.info).isSome then
+    match decXactEnd r.info r.mainData with
+    | some x =>
+      let op := r.info &&& 0x70
+      (if op = 0x30 ∨ op = 0x40 then x.twophase.toList else [r.xid]) ++ x.subxacts
+    | none => [r.xid]
+  else []
+
+/-- a WAL segment file name: 24 upper-case hexadecimal digits (XLogFileName: timeline, log, segment;
+IsXLogFileName: `strlen(fname) == 24 && strspn(fname, "0123456789ABCDEF") == 24`) -/
 def isSegmentName (n : String) : Bool :=
   n.length == 24 && n.toList.all fun c => ('0' ≤ c && c ≤ '9') || ('A' ≤ c && c ≤ 'F')
 
@@ -346,7 +481,8 @@ structure RecInfo where
   lsn : Nat
   xid : Nat
   op : String                  -- operation name
-  status : Option String       -- commit/abort verdict this record gives to its xid
+  status : Option String       -- commit/abort verdict of the record's opcode
+  decided : List Nat           -- the transactions that verdict applies to (`decidedXids`)
   tables : List String         -- "db/rel" of every referenced relation with a non-zero filenode
 deriving Repr, DecidableEq, Inhabited
 
@@ -358,7 +494,7 @@ def dedup [BEq α] : List α → List α
 def countBy [BEq κ] (keys : List κ) : List (κ × Nat) := (dedup keys).map fun k => (k, keys.count k)
 
 def lastStatus (rs : List RecInfo) (xid : Nat) : String :=
-  match (rs.filter fun r => r.xid == xid && r.status.isSome).getLast? with
+  match (rs.filter fun r => r.decided.contains xid && r.status.isSome).getLast? with
   | some r => r.status.getD "IN_PROGRESS"
   | none => "IN_PROGRESS"
 
@@ -367,7 +503,7 @@ structure Tallies where
   firstLSN : Nat               -- smallest position (0 when there is no record)
   lastLSN : Nat                -- largest position
   ops : List (String × Nat)
-  txs : List (Nat × String × Nat)   -- (xid, status, records), xid ≠ 0
+  txs : List (Nat × String × Nat)   -- (xid, status, records) for every xid ≠ 0 that is the xl_xid of some record
   tables : List (String × Nat)
 deriving Repr, Inhabited
 
